@@ -110,7 +110,13 @@ def main(argv):
             # the whole build: every library unit of the compile database takes part in call-graph / call-site rules
             units += ir.build_units()
         prog = ir.load_program(units, variant=tuple(VARIANTS[variant]) if variant else ())
-        extra = mod.run(ck, prog) or {}
+        try:
+            extra = mod.run(ck, prog) or {}
+        except ir.AnalysisBroken as e:
+            # an anchor vanished half-way: what was decided before it is still reported (a violation found earlier keeps exit 1);
+            # the run as a whole is analysis-broken otherwise
+            extra = {}
+            ck.aborted = str(e)
         if variant:
             extra['variant'] = variant
         broken_self = []
